@@ -204,6 +204,9 @@ def element_index_agreement(ctx):
 
 def run(ctx):
     rep = ctx.rep
+    rep.rule("C11.R8", "dependence monotonicity (K13) over every primal/derivative pair of K5: a stated derivative reads no datum its primal does not read", 20)
+    from .. import depmono as _dm
+    _dm.check_k5_pairs(ctx, "C11.R8", ['CosseratRod'])
     rep.rule("C11.R1", "chain-rule coverage of rod derivatives (K5) and material tangents", 20)
     rep.rule("C11.R2", "_deval reproduces _eval's primal outputs", 8)
     rep.rule("C11.R3", "normalising quaternion kernels / non-normalising kinematic equation", 20)
